@@ -261,8 +261,16 @@ def run(ctx):
     okw = False
     if len(w) == 1:
         a0 = arg_nodes(w[0])[0]
-        parts = flatten_sum(a0)
         c0 = core(a0)
+        if c0 is not None and c0.get("k") == "ref" and c0.get("did") is not None:
+            # the word through a named local (`const uint64_t encoded = ...; encoder.write(encoded)`): initialised once, never reassigned
+            inits = [f.nodes[v["init"]] for d in f.nodes if d.get("k") == "decl" for v in d.get("vars", []) if v.get("did") == c0["did"] and "init" in v]
+            writes = [n for n in f.nodes if n.get("k") == "bin" and n.get("op", "").endswith("=") and n["op"] not in ("==", "!=", "<=", ">=") and
+                      core(n.child("l")) is not None and core(n.child("l")).get("did") == c0["did"]]
+            if inits and len(set(i_["id"] for i_ in inits)) == 1 and not writes:
+                a0 = inits[0]
+                c0 = core(a0)
+        parts = flatten_sum(a0)
         if len(parts) == 1 and c0 is not None and c0.get("k") == "call" and c0.get("fk") in prog.functions:
             # the word may be packed by a small static helper: substitute the arguments for its parameters
             h = prog.functions[c0["fk"]]
